@@ -388,6 +388,27 @@ pub fn cases(f: &mut dyn FnMut(Value) -> bool) {
             }
         }
     }
+    // zero-sized element type: every cell has the same address and Vec capacity is unbounded, so
+    // code that compares cell addresses or derives counts from pointer differences goes wrong here
+    for &(c, r) in &shapes {
+        for op in ops_for(c, r, true) {
+            if !f(json!({"elem": "zst", "cap": "exact", "shape": [c, r], "ops": [op.to_json()]})) {
+                return;
+            }
+        }
+    }
+    for &(c, r) in &shapes {
+        for op1 in ops_for(c, r, false) {
+            let mut g = start_grid(c, r);
+            let _ = model_apply(&mut g, 0, &op1);
+            let (c2, r2) = grid_dims(&g);
+            for op2 in ops_for(c2, r2, false) {
+                if !f(json!({"elem": "zst", "cap": "exact", "shape": [c, r], "ops": [op1.to_json(), op2.to_json()]})) {
+                    return;
+                }
+            }
+        }
+    }
     // histories of two operations
     for &(c, r) in &shapes {
         for op1 in ops_for(c, r, true) {
@@ -464,7 +485,132 @@ fn run_elem<T: Cell>(case: &Value, track_drops: bool) -> Res {
     Ok(())
 }
 
+// -------------------------------------------------------------------------------------------------
+// Zero-sized cells: no values to compare, so the oracle is panic behaviour, dimensions, drain
+// lengths and the balance of constructions against destructor runs.
+
+thread_local! {
+    static ZST_MADE: std::cell::Cell<i64> = std::cell::Cell::new(0);
+    static ZST_DROPPED: std::cell::Cell<i64> = std::cell::Cell::new(0);
+}
+
+pub struct Zst;
+impl Zst {
+    fn make() -> Zst {
+        ZST_MADE.with(|c| c.set(c.get() + 1));
+        Zst
+    }
+}
+impl Drop for Zst {
+    fn drop(&mut self) {
+        ZST_DROPPED.with(|c| c.set(c.get() + 1));
+    }
+}
+fn zst_live() -> i64 {
+    ZST_MADE.with(|c| c.get()) - ZST_DROPPED.with(|c| c.get())
+}
+
+fn zst_drain<D: DoubleEndedIterator<Item = Zst> + ExactSizeIterator>(mut d: D, plan: &Plan) -> Vec<String> {
+    let mut tr = vec![format!("len={}", d.len())];
+    for front in plan.steps() {
+        let x = if front { d.next() } else { d.next_back() };
+        let some = x.is_some();
+        drop(x);
+        tr.push(format!("{}={} len={}", if front { "next" } else { "next_back" }, some, d.len()));
+    }
+    tr
+}
+
+/// `next=Some(9001) len=2` -> `next=true len=2`
+fn zst_trace(tr: Vec<String>) -> Vec<String> {
+    tr.into_iter()
+        .map(|s| match (s.find('='), s.find(" len=")) {
+            (Some(a), Some(b)) if a < b => format!("{}={}{}", &s[..a], s[a + 1..b].starts_with("Some"), &s[b..]),
+            _ => s,
+        })
+        .collect()
+}
+
+fn zst_apply(t: &mut TooDee<Zst>, op: &Op) -> Vec<String> {
+    let mk = |len: usize| -> Vec<Zst> { (0..len).map(|_| Zst::make()).collect() };
+    match op {
+        Op::InsertRow(i, l) => {
+            t.insert_row(*i, mk(*l));
+            vec![]
+        }
+        Op::PushRow(l) => {
+            t.push_row(mk(*l));
+            vec![]
+        }
+        Op::InsertCol(i, l) => {
+            t.insert_col(*i, mk(*l));
+            vec![]
+        }
+        Op::PushCol(l) => {
+            t.push_col(mk(*l));
+            vec![]
+        }
+        Op::RemoveRow(i, p) => zst_drain(t.remove_row(*i), p),
+        Op::PopRow(p) => match t.pop_row() {
+            None => vec!["None".to_string()],
+            Some(d) => zst_drain(d, p),
+        },
+        Op::RemoveCol(i, p) => zst_drain(t.remove_col(*i), p),
+        Op::PopCol(p) => match t.pop_col() {
+            None => vec!["None".to_string()],
+            Some(d) => zst_drain(d, p),
+        },
+    }
+}
+
+fn run_zst(case: &Value) -> Res {
+    let (c, r) = (ju(&case["shape"][0]), ju(&case["shape"][1]));
+    let ops: Vec<Op> = case["ops"].as_array().unwrap().iter().map(Op::from_json).collect();
+    ZST_MADE.with(|x| x.set(0));
+    ZST_DROPPED.with(|x| x.set(0));
+    let mut model = start_grid(c, r);
+    let mut t: TooDee<Zst> = TooDee::from_vec(c, r, (0..c * r).map(|_| Zst::make()).collect());
+    let mut any_panic = false;
+    for (n, op) in ops.iter().enumerate() {
+        let name = format!("zero-sized cells: op {} {}", n, op.to_json());
+        let exp = model_apply(&mut model, n, op).map(zst_trace);
+        let got = catch(|| zst_apply(&mut t, op));
+        let show = |o: &Option<Vec<String>>| match o {
+            Some(tr) => format!("ok [{}]", tr.join("; ")),
+            None => "panic".to_string(),
+        };
+        let got_o = got.ok();
+        check_str(&name, &show(&exp), &show(&got_o))?;
+        shape_invariant(&format!("after {}", name), &t)?;
+        if exp.is_some() {
+            check_eq(&format!("dims after {}", name), &grid_dims(&model), &(t.num_cols(), t.num_rows()))?;
+        } else {
+            any_panic = true;
+            let (c2, r2) = (t.num_cols(), t.num_rows());
+            model = start_grid(c2, r2);
+        }
+        let live = zst_live();
+        let held = t.data().len() as i64;
+        if live < held || (!any_panic && live != held) {
+            return Err(Fail::new(
+                format!("{}: drops", name),
+                format!("{} live cells (constructed minus destroyed) = cells held by the array", held),
+                format!("{} live cells", live),
+            ));
+        }
+    }
+    drop(t);
+    let live = zst_live();
+    if live < 0 || (!any_panic && live != 0) {
+        return Err(Fail::new("zero-sized cells: final drop accounting", "every cell destroyed exactly once", format!("constructed minus destroyed = {}", live)));
+    }
+    Ok(())
+}
+
 pub fn run(case: &Value) -> Res {
+    if js(&case["elem"]) == "zst" {
+        return run_zst(case);
+    }
     match js(&case["elem"]) {
         "tok" => run_elem::<Tok>(case, true),
         "u32" => run_elem::<u32>(case, false),
